@@ -148,7 +148,6 @@ type half struct {
 	every     int
 	everyFrom int64
 	nreads    int
-	minFirst  int // size of the first non-empty Read (observability)
 }
 
 const wlogMax = 40
@@ -268,9 +267,6 @@ func (h *half) read(p []byte) (int, error) {
 	}
 	h.upos += n
 	h.roff += int64(n)
-	if h.nreads == 0 {
-		h.minFirst = n
-	}
 	h.nreads++
 	if h.upos == len(u) {
 		h.q[0] = nil
